@@ -499,6 +499,12 @@ func (o *ObjectSchema) applySubObjectDefaultValues(propertyID string, property *
 		// itself, which made this recursion endless (fatal stack overflow on Unserialize).
 		return
 	}
+	if field, hasField := o.fieldCache[propertyID]; !hasField || field.Type.Kind() != reflect.Struct {
+		// What counts is the field that holds the sub-object, not the type the sub-object is mapped to: a
+		// struct can only refer to itself through a pointer field (Next *Node for a property that references
+		// Node), and following such a field would never end either.
+		return
+	}
 	var subObject Object
 	switch property.TypeID() {
 	case TypeIDRef:
@@ -527,8 +533,11 @@ func (o *ObjectSchema) applySubObjectDefaultValues(propertyID string, property *
 			data[k] = v
 		}
 	}
-	for subPropertyID, subProperty := range subObject.Properties() {
-		o.applySubObjectDefaultValues(subPropertyID, subProperty, data)
+	if subObjectSchema, ok := subObject.(*ObjectSchema); ok {
+		// The sub-object knows which of its own fields hold their sub-objects by value.
+		for subPropertyID, subProperty := range subObject.Properties() {
+			subObjectSchema.applySubObjectDefaultValues(subPropertyID, subProperty, data)
+		}
 	}
 	if len(data) != 0 {
 		rawData[propertyID] = data
